@@ -21,3 +21,12 @@ def ordBy (seed : Nat) : Ord := fun l =>
   if seed == 0 then l.mergeSort (fun a b => !(b < a)) else l.mergeSort (keyLe seed)
 
 end CG
+
+namespace CG
+
+/-- order of a set of edges (tuples): lexicographic in the element order -/
+def ordEdgesBy (seed : Nat) (l : List (Name × Name)) : List (Name × Name) :=
+  let le1 := fun (a b : Name) => if seed == 0 then !(b < a) else keyLe seed a b
+  l.mergeSort (fun e f => if e.1 == f.1 then le1 e.2 f.2 else le1 e.1 f.1)
+
+end CG
